@@ -75,14 +75,16 @@ def make_pref(n_high, low_bounds, empty_pos=None, reach=False):
         dist = lambda v: core.zabs(v - p)  # noqa: E731
         cands = [lo, hi, E(el), E(eu)]
         nonempty = z3.Or(*[adm(c) for c in cands])
-        ex.check(z3.Implies(z3.And(p != 0, nonempty),
+        # (a zero preference may stay inside the exclusion zone, but only where zero lies inside the reported bounds)
+        not_free_zero = z3.Or(p != 0, z3.Not(z3.And(lo <= 0, 0 <= hi)))
+        ex.check(z3.Implies(z3.And(not_free_zero, nonempty),
                             z3.And(adm(tw), *[z3.Implies(adm(c), dist(tw) <= dist(c)) for c in cands], z3.Implies(adm(p), tw == p))),
                  "target is not the closest admissible value")
         # the reported range is declaratively the running intersection carved by the exclusion zone
         ex.check(z3.And(lo >= L, hi <= H, z3.Implies(z3.And(L <= E(el), True), lo == L), z3.Implies(H >= E(eu), hi == H)),
                  "reported bounds differ from the intersection of system and higher-priority bounds")
         adj = rep.adjust_to_bounds(W(pB))
-        ex.check(z3.Implies(z3.And(p != 0, nonempty), z3.Or(*[tw == E(a.as_watts()) for a in adj if a is not None], False)),
+        ex.check(z3.Implies(z3.And(not_free_zero, nonempty), z3.Or(*[tw == E(a.as_watts()) for a in adj if a is not None], False)),
                  "adjust_to_bounds(preferred) does not contain the target")
         if empty_pos is not None:
             prio = {"top": 10 * n_high + 20, "mid": 7, "bottom": 1}[empty_pos]
@@ -103,6 +105,8 @@ def instances(tier):
     out = [
         I("reach:pref-1high", "make_pref", (1, False, None, True), "reachability twin", budget_s=60, validate_every=0),
         I("pref-0high-ownbounds", "make_pref", (0, True), "a single actor with a preference and its own bounds (which apply to lower priorities only)",
+          budget_s=200, validate_every=20),
+        I("pref-0high-ownbounds-empty-bottom", "make_pref", (0, True, "bottom"), "a single actor with a preference and its own bounds + an empty proposal below it",
           budget_s=200, validate_every=20),
         I("pref-1high", "make_pref", (1, False), "1 bound-setter (any None pattern) above 1 preference", budget_s=300, validate_every=100),
         I("pref-1high-empty-top", "make_pref", (1, False, "top"), "+ empty proposal with the highest priority", budget_s=200, validate_every=100),
